@@ -408,6 +408,7 @@ func main() {
 	r.Floor("scripts", caseNo, 3000)
 	r.Floor("idle_periods_injected", int(r.Counter("idle_periods_injected")), 1000)
 
+	pendingReadHandovers(r, rnd)
 	handover(r)
 	handoverRace(r)
 	r.Finish()
